@@ -510,10 +510,86 @@ def render_const(chs):
     lines.append("    std::panic::set_hook(Box::new(|_| {}));")
     for ci, c in enumerate(chs):
         for ii in range(len(CONST_INPUTS)):
-            s = c.s.replace("xs.iter()", f"IN{ii}.iter()").replace("(a..b)", f"(A{ii}..B{ii})").replace("(a..=b)", f"(A{ii}..=B{ii})")
-            lines.append(f"    {{ let k = format!(\"{{:?}}\", K{ci}_{ii}); let s = cu(|| format!(\"{{:?}}\", {s}.collect::<Vec<_>>())); println!(\"{{{{\\\"c\\\":{ci},\\\"i\\\":{ii},\\\"ok\\\":{{}},\\\"k\\\":{{:?}},\\\"s\\\":{{:?}}}}}}\", k == s, k, s); }}")
+            sub = lambda t: t.replace("xs.iter()", f"IN{ii}.iter()").replace("(a..b)", f"(A{ii}..B{ii})").replace("(a..=b)", f"(A{ii}..=B{ii})")
+            s = sub(c.s)
+            # h: the reverse-hoisted model (finding F7), only consulted when the chain is F7-shaped and disagrees with std
+            h = f"cu(|| format!(\"{{:?}}\", {sub(c.h)}.collect::<Vec<_>>()))" if c.f7 else "String::new()"
+            lines.append(f"    {{ let k = format!(\"{{:?}}\", K{ci}_{ii}); let s = cu(|| format!(\"{{:?}}\", {s}.collect::<Vec<_>>())); let h = {h}; println!(\"{{{{\\\"c\\\":{ci},\\\"i\\\":{ii},\\\"ok\\\":{{}},\\\"hoisted\\\":{{}},\\\"k\\\":{{:?}},\\\"s\\\":{{:?}}}}}}\", k == s, k == h, k, s); }}")
     lines.append("}")
     return {"c10_const": {"src/main.rs": "\n".join(lines) + "\n", "src/support.rs": SUPPORT}}, linemap
+
+
+def const_family(ws_tag, chains):
+    """collect_const! over the given chains x CONST_INPUTS in its own workspace: iterated discovery of rejected items,
+    build, run, classify.  Returns (violations, evaluated item count, machinery errors, F7-shaped known count)."""
+    ok_chain = Chain(SOURCES[0])
+    mach, viol = [], []
+    const_rejected = {}
+    cur = list(chains)
+    for _round in range(6):
+        crates, clinemap = render_const(cur)
+        ws = e3.write_workspace(ws_tag, crates)
+        errors, seen, rc, err = e3.check_json(ws)
+        before = len(const_rejected)
+        for tgt, errs in errors.items():
+            for e in errs:
+                hit = False
+                for (f, line) in e["spans"]:
+                    if f.endswith(f"{tgt}/src/main.rs"):
+                        for (ci, ii), ln in clinemap.items():
+                            if ln == line:
+                                const_rejected[(ci, ii)] = e["msg"]; hit = True
+                if not hit and e["msg"] and "aborting" not in e["msg"] and "could not compile" not in e["msg"]:
+                    mach.append(f"unattributed compiler error in {tgt}: {e['msg'][:300]} {e['spans'][:3]}")
+        if mach or len(const_rejected) == before:
+            break
+        bad_ci = {ci for (ci, ii) in const_rejected}
+        cur = [c if i not in bad_ci else ok_chain for i, c in enumerate(chains)]
+    if mach:
+        return viol, 0, mach, 0
+    rcode, out, errtxt = e3.cargo(ws, ["build", "-q"])
+    if rcode != 0:
+        return viol, 0, [f"generated {ws_tag} workspace does not build after removing rejected items: " + errtxt[-1500:]], 0
+    rc3, o3, e3txt = e3.run_bin(ws, "c10_const")
+    if rc3 != 0:
+        return viol, 0, [f"runner c10_const of {ws_tag} failed: {e3txt[-500:]}"], 0
+    results = [json.loads(l) for l in o3.splitlines() if l.startswith("{")]
+    for (ci, ii), msg in const_rejected.items():
+        c = chains[ci]
+        viol.append({"engine": "dsl", "func": "collect_const", "replay": f"const|{ci}|{ii}", "case": f"collect_const!({c.k_src}, {', '.join(c.k)}) on const input #{ii} {CONST_INPUTS[ii]}",
+                     "expected": "compiles and equals Iterator::collect", "observed": "rejected / const-eval error: " + msg[:300], "class": "rejected", "program": ", ".join(c.k)})
+    known = 0
+    bad_ci = {ci for (ci, ii) in const_rejected}
+    for r in results:
+        if r["ok"] or r["c"] in bad_ci:
+            continue
+        c = chains[r["c"]]
+        k = bool(c.f7 and r.get("hoisted"))
+        known += 1 if k else 0
+        viol.append({"engine": "dsl", "func": "collect_const", "replay": f"const|{r['c']}|{r['i']}", "case": f"collect_const!({c.k_src}, {', '.join(c.k)}) on const input {CONST_INPUTS[r['i']]}",
+                     "expected": r["s"], "observed": r["k"], "class": "reverse-hoisted" if k else "mismatch", "program": ", ".join(c.k)})
+    return viol, len(results), mach, known
+
+
+def direction_chains(tier):
+    """collect_const! chains that exercise how the iteration direction reaches every adapter: all chains of <= 2 of the
+    direction-sensitive adapters, plus every 3-chain (thorough: 4-chain) over the core ones that contains rev()"""
+    D = ["map", "filter", "enumerate", "rev", "skip1", "take2", "zip_range", "zip_slice", "flat_map", "mapflatten"]
+    core = ["rev", "zip_range", "flat_map", "take2", "enumerate", "skip1"]
+    out = []
+    for src in [s for s in SOURCES if s[0] in ("slice", "range", "range_inc")]:
+        level = [Chain(src)]
+        allc = list(level)
+        for _ in range(2):
+            level = [n for c in level for ad in D if (n := c.apply(ad)) is not None]
+            allc.extend(level)
+        deep = [Chain(src)]
+        for d in range({"quick": 3, "thorough": 4}[tier]):
+            deep = [n for c in deep for ad in core if (n := c.apply(ad)) is not None]
+            if d >= 2:
+                allc.extend(c for c in deep if "rev" in c.names)
+        out.extend(c for c in allc if c.typeable and c.konst_ok and not c.has_from)
+    return out
 
 
 # ---------------------------------------------------------------- driver
@@ -635,11 +711,10 @@ def run(tier, seed, drv):
             c = cch2[r["c"]]
             if any(ci == r["c"] for (ci, ii) in const_rejected):
                 continue  # placeholder standing in for a rejected chain
-            if c.f7:
-                cknown += 1
-                continue
+            known = c.f7 and r.get("hoisted")
+            cknown += 1 if known else 0
             viol.append({"engine": "dsl", "func": "collect_const", "replay": f"const|{r['c']}|{r['i']}", "case": f"collect_const!({c.k_src}, {', '.join(c.k)}) on const input {CONST_INPUTS[r['i']]}",
-                         "expected": r["s"], "observed": r["k"], "class": "mismatch", "program": ", ".join(c.k)})
+                         "expected": r["s"], "observed": r["k"], "class": "reverse-hoisted" if known else "mismatch", "program": ", ".join(c.k)})
     # known finding F7: reported through known_findings.json (the matcher is behavioural: output == reverse-hoisted model)
     for r in known_progs:
         p = byid[r["id"]]
